@@ -357,6 +357,16 @@ pub fn run(rng: &mut Rng, n: usize, rep: &mut Report) {
                             if BigInt::from(paid) > &exact_value + 1 {
                                 rep.fail(format!("C03 solend_withdraw paid {} tokens for {} collateral whose exact value is {}", paid, exp_c, exact_value));
                             }
+                            // C20: … and at most the exact value of the collateral DEBITED FROM THE POSITION
+                            {
+                                let debited = BigInt::from(dsh >> 48);
+                                let v: BigInt = if col > BigInt::from(0) { &debited * &liq_w / (&col * &wad) } else { BigInt::from(0) };
+                                if BigInt::from(paid) > &v + 1 {
+                                    for tag in ["C20", "C03"] {
+                                        rep.fail(format!("{} solend_withdraw (all = {}) paid {} tokens while the position was debited {} collateral whose exact value is {}: the conversion overstates what the position is worth", tag, all, paid, debited, v));
+                                    }
+                                }
+                            }
                             if debt_before > 0 {
                                 let mut c2 = k.w.clone();
                                 let metas = c2.remaining_in_slot_order(&acct);
